@@ -654,6 +654,12 @@ func allocSize(lv, cv value) (int64, int64) {
 			rep := bvCmp("=", l64, mkConst(64, uint64(R.cfg.SmallAlloc+1)))
 			if R.feasible(rep, true) == resSat {
 				R.addPC(rep)
+			} else if s, ok := lv.(*Sym); ok {
+				// the representative size is excluded by the path condition: any one witness
+				R.concretizeOpt(s.T, "makeslice-len-witness", true)
+			}
+			if s, ok := cv.(*Sym); ok {
+				R.concretizeOpt(s.T, "makeslice-cap-witness", true)
 			}
 		}
 	}
